@@ -106,7 +106,8 @@ def check(case) -> Outcome:
     if case.get("cancelling"):
         labels.add("compound-fraction-that-cancels")
     e = exprgen.build_raw(spec)
-    order = None if case["order"] is None else [Variable(n) for n in case["order"]]
+    # the ordering is typed Sequence[str | Variable]: names, variables, or a mixture
+    order = None if case["order"] is None else [(n if (case["perm"] + i) % 3 == 0 else Variable(n)) for i, n in enumerate(case["order"])]
 
     def fail(kind, **kw):
         out.ok = False
